@@ -15,7 +15,7 @@ ID = "C03"
 LEVEL = "exploration"
 RULE = ("enumerated cells: ordered pairs of distinct fcc metals on (100)/(111) and bcc metals on (100)/(110) with lattice "
         "mismatch < 5 % (B strained in plane to A) x layers {3+3, 4+3, 3+5} x lateral 4x4/5x5 x pbc TTT/TTF x noise "
-        "{0, 0.03} x registry {on-top, hollow}; interface at bonding distance (sum of covalent radii + 0.25 A); each cell in "
+        "{0, 0.03} x registry {on-top, hollow} (+ for pbc TTT a vacuum-free periodic superlattice variant); interface at bonding distance (sum of covalent radii + 0.25 A); each cell in "
         "a presentation (rotation, translation, permutation, SBC seed) from its pool. Cells failing the independent bonding / "
         "overlap / interface precondition are discarded and counted. thorough = every cell, quick = VERIF_SEED-chosen subset "
         "(+ listed findings' cells). distinct = cell keys judged")
@@ -99,7 +99,7 @@ def run_case(case):
         core.set_recorder(None)
     out = rec.export()
     out["info"] = {"key": cell["key"], "nontrivial": True,
-                   "classes": {"pair": "%s/%s" % (cell["A"], cell["B"]), "facet": cell["facet"], "pbc": "TTT" if cell["pbc_z"] else "TTF",
+                   "classes": {"pair": "%s/%s" % (cell["A"], cell["B"]), "facet": cell["facet"], "pbc": ("TTT" if cell["pbc_z"] else "TTF") + ("" if cell.get("vac", True) else "-novac"),
                                "noise": cell["noise"], "registry": cell["registry"], "layers": "%d+%d" % (cell["la"], cell["lb"]), "lateral": cell["n"]}}
     out["sample"] = {"cell": cell["key"], "natoms": len(atoms), "observed": obs}
     return out
